@@ -315,11 +315,15 @@ class CrashRun:
                                 "{}: the first rows of the table changed".format(tag))
         return None
 
-    def check_final(self, res, tag):
+    def check_final(self, res, tag, killed_reap=False):
         m, fspec, xyz = self.m, self.fspec, self.xyz
         sw = m.sc.sweep
         kind = m.sc.kind
-        what = "{}:{}".format(self.role or "raw", self.victim)
+        # the history class the violation signature carries: which phase was
+        # killed - "reap-killed" whenever a reap died (victim or recovery step),
+        # because that is where a sampler's clean-up can be interrupted
+        what = "{}:{}".format(self.role or "raw",
+                              "reap-killed" if (killed_reap or self.victim == "reap") else self.victim)
         if res == ("delivered",):
             crop = val = None
         else:
@@ -487,11 +491,13 @@ def _after_crash(ctx, r, victim, tag, k):
         second = (t.pick(["resow", "check_bad", "grow_missing", "reap"], "second-step"),
                   1 + t.choose(40, "second-site"))
     res = r.recover(victim, tag, second_kill=second)
+    killed_reap = False
     if isinstance(res, tuple) and res and res[0] == "killed":
         tag2 = tag + ", then recovery step {} killed at its site {}".format(res[1], second[1])
+        killed_reap = res[1] == "reap"
         r.check_data_survives(tag2)
         # the user now recovers from the death of *that* step: a re-sow is forced
         # only if the step that died was itself the re-sow
         res = r.recover(res[1], tag2)
         tag = tag2
-    r.check_final(res, tag)
+    r.check_final(res, tag, killed_reap=killed_reap)
